@@ -413,35 +413,35 @@ fn c02_step(_pre: &Chain, po: &HubObs, a: &Action, out: &Outcome, _post: &Chain,
         return;
     }
     let fx = out.fx();
-    // every bond-type execution delegates exactly its payment, to registered validators only
-    let mut i = 0;
-    while i < fx.len() {
-        if let Fx::Exec { contract, msg, funds, .. } = &fx[i] {
+    // every bond-type execution delegates exactly its payment, to registered validators only (judged per
+    // transaction and independent of the order in which the hub emits its messages)
+    let mut pay = 0u128;
+    let mut bond_execs = 0;
+    for e in fx {
+        if let Fx::Exec { contract, msg, funds, .. } = e {
             if contract == HUB && (msg.get("bond").is_some() || msg.get("bond_for_st_sei").is_some() || msg.get("bond_rewards").is_some()) {
-                let pay: u128 = funds.iter().filter(|(d, _)| d == USEI).map(|(_, a)| *a).sum();
-                let mut j = i + 1;
-                let mut sum = 0u128;
-                while j < fx.len() {
-                    match &fx[j] {
-                        Fx::Delegate { val, amt, delegator } if delegator == HUB => {
-                            sum += *amt;
-                            if !qo.registry.iter().any(|r| r == val) {
-                                cx.viol("C02.delegate_target", "delegation to unregistered validator", format!("{} delegated {} to {} not in registry {:?}", a.label, amt, val, qo.registry));
-                            }
-                        }
-                        Fx::Exec { .. } => break,
-                        _ => {}
-                    }
-                    j += 1;
-                }
-                cx.trigger("c02_bond_delegation_checked");
-                cx.validated();
-                if sum != pay {
-                    cx.viol("C02.delegate_sum", "delegate messages do not sum to the payment", format!("{}: payment {} delegated {}", a.label, pay, sum));
+                pay += funds.iter().filter(|(d, _)| d == USEI).map(|(_, a)| *a).sum::<u128>();
+                bond_execs += 1;
+            }
+        }
+    }
+    let mut sum = 0u128;
+    for e in fx {
+        if let Fx::Delegate { val, amt, delegator } = e {
+            if delegator == HUB {
+                sum += *amt;
+                if !qo.registry.iter().any(|r| r == val) {
+                    cx.viol("C02.delegate_target", "delegation to unregistered validator", format!("{} delegated {} to {} not in registry {:?}", a.label, amt, val, qo.registry));
                 }
             }
         }
-        i += 1;
+    }
+    if bond_execs > 0 {
+        cx.trigger("c02_bond_delegation_checked");
+        cx.validated();
+    }
+    if sum != pay {
+        cx.viol("C02.delegate_sum", "delegate messages do not sum to the payment", format!("{}: payment {} delegated {}", a.label, pay, sum));
     }
     // liquid balance untouched by bond / convert / index update / slashing check
     let is_unbond = a.hub_hook().map(|h| h.0 == "unbond").unwrap_or(false);
